@@ -190,3 +190,25 @@ package db
 //@ func DatabaseCollection.getRevisionChannels
 //@   modifies *
 //@   ensures[deny-on-error] !isNilErr(err) ==> channels == nil && !deleted
+
+// ---- channel stamp of a backed-up revision body ----
+// When an update supersedes a revision its body is moved to a backup document that carries a channel set;
+// getRevision / the revision-cache loader later authorise a request for that old revision against the STORED set
+// (getOldRevisionJSON). Path contracts (`modifies *`: the heap effect is not described): the channel set is handed
+// down unchanged from documentUpdateFunc's `oldChannels` to the bytes that are marshalled into the backup:
+//   documentUpdateFunc  oldChannels = the document's current channels taken before the callback / the sync function
+//                       (clauses backup-channels, old-channels-first on the contract in db/zz_verif_c11.go)
+//   backupAncestorRevs  stamps the backup with the channels OF THE REVISION IT BACKS UP: the pre-update winner's channels only
+//                       when that revision is the pre-update winner, otherwise that revision's own pre-update channel set
+//                       (snapshot of the leaves' sets; never the winner's) and doc.ID                 (below)
+//   backupRevisionJSON  passes its channels argument (docId, oldRev) to refreshOldRevisionJSON  (below)
+//   refreshOldRevisionJSON -> setOldRevisionJSON -> Set.MarshalJSON   (clauses on the contracts in db/zz_verif_c11.go)
+//@ func DatabaseCollectionWithUser.backupAncestorRevs
+//@   modifies *
+//@   only-contracts none
+//@   before[stamped-with-own-channels] call backupRevisionJSON#1 $2 == doc.ID && ($3 == prevCurrentRev ==> $5 == prevCurrentChannels) && ($3 != prevCurrentRev && ($3 in prevLeafChannels) && prevLeafChannels[$3] != nil ==> $5 == prevLeafChannels[$3]) && ($3 != prevCurrentRev && !(($3 in prevLeafChannels) && prevLeafChannels[$3] != nil) ==> len($5) == 0)
+
+//@ func DatabaseCollectionWithUser.backupRevisionJSON
+//@   modifies *
+//@   only-contracts none
+//@   before[stamped-with-arg] call refreshOldRevisionJSON#1 $6 == channels && $2 == docId && $3 == oldRev && $4 == oldBody
